@@ -193,6 +193,12 @@ def rules(ctx, db):
     for f, bb in nots:
         ctx.ob("R4", "notify-caller:" + f.name, re.search(DRV, f.id) is not None,
                "Entry::notify is only called by the drivers", f)
+    from ..util import waker_refresh_ok
+    for f in db.methods(self_adt=r"^compio_driver::key::ErasedKey$", name="set_waker", trait=""):
+        app, ok = waker_refresh_ok(db, f)
+        ctx.ob("R4", "set_waker-refreshes-unless-will_wake", app and ok,
+               "the op's waker is replaced by the current one unless the stored waker will_wake it (a stale waker "
+               "would wake a task that no longer awaits the op)", f)
     tr = [f for f in db.fns.values() if f.name == "compio_driver::key::ErasedKey::take_result"]
     for f in tr:
         ctx.ob("R4", "take_result-consumes-unique-key", bool(calls(f, r"ThinCell::<T>::try_unwrap$")) and f.rec.get("sig", "").find("(compio_driver::key::ErasedKey") >= 0,
